@@ -422,13 +422,26 @@ def install(facade):
     """put the simulated FS behind lark's seams; returns an uninstall function"""
     import lark.lark as LL, lark.load_grammar as LG
 
-    def sim_open(name, *a, **kw):
+    def sim_open(name, mode='r', *a, **kw):
+        # plain open() as lark.lark / lark.load_grammar see it: everything under VROOT is on the simulated disk -- grammar sources as
+        # text, and (should a change bypass FS.open) cache files in binary mode through the same fault engine
         if isinstance(name, str) and name.startswith(VROOT):
-            return facade.proc().text_open(name, *a, **kw)
-        return _real_open(name, *a, **kw)
+            if 'b' in mode:
+                return facade.proc().open(name, mode, **kw)
+            return facade.proc().text_open(name, mode, *a, **kw)
+        return _real_open(name, mode, *a, **kw)
 
-    saved = (LL.FS, LG.__dict__.get('open'), LG.os, LL.sys, LL.__dict__.get('open'), LG.sys, LL.os)
+    class _TempfileShim:
+        def __getattr__(self, k):
+            import tempfile
+            return getattr(tempfile, k)
+
+        def gettempdir(self):
+            return VROOT + 'tmp'
+
+    saved = (LL.FS, LG.__dict__.get('open'), LG.os, LL.sys, LL.__dict__.get('open'), LG.sys, LL.os, LL.tempfile)
     LL.FS = facade
+    LL.tempfile = _TempfileShim()
     LL.os = _LarkOsShim(facade)
     LG.open = sim_open
     LG.os = _OsShim(facade)
@@ -444,6 +457,7 @@ def install(facade):
             LG.open = saved[1]
         LG.os = saved[2]
         LL.os = saved[6]
+        LL.tempfile = saved[7]
         LG.sys = saved[5]
         LL.sys = saved[3]
         if saved[4] is None:
